@@ -42,6 +42,7 @@ type loopInfo struct {
 }
 
 type Exec struct {
+	entry0lock   bool
 	splitting    bool
 	invQVals     []invQVal
 	invVals      []invVal
@@ -330,6 +331,15 @@ func (ex *Exec) keepStable(extra map[string]bool) func(string) bool {
 		if strings.HasPrefix(name, "G_") || ex.g.stable[name] || ex.g.jsPreserved[name] {
 			return true
 		}
+		if name == "lockheld" {
+			return true // unknown code is assumed lock-balanced
+		}
+		if name == "alloc" || name == "allocA" {
+			// the ghost allocation sets are read as "every object that exists or that unknown code
+			// will ever create": unknown code then never changes them, and the only facts used —
+			// objects we allocate ourselves are new and distinct from everything else — stay true
+			return true
+		}
 		if strings.HasPrefix(name, "L_") {
 			return !extra[name]
 		}
@@ -345,9 +355,11 @@ func (ex *Exec) jsEffect(st *State) *State {
 			esc[n] = true
 		}
 	}
-	oldAlloc := st.get("alloc")
 	n := st.havocAll(ex.keepStable(esc))
 	n.heap["jsfx"] = "true"
+	if _, ok := ex.e.hsort["lastload"]; ok {
+		n.heap["lastload"] = "nil" // unknown code ran: no poll is "the last event" any more
+	}
 	if len(ex.invVals)+len(ex.invQVals) > 0 && ex.curBlock != nil {
 		// unknown code preserves the type invariants of the objects we hold
 		savedSt := ex.st
@@ -360,7 +372,6 @@ func (ex *Exec) jsEffect(st *State) *State {
 		}
 		ex.st = savedSt
 	}
-	ex.e.assume(fmt.Sprintf("(forall ((r Ref)) (! (=> (select %s r) (select %s r)) :pattern ((select %s r))))", oldAlloc, n.get("alloc"), n.get("alloc")))
 	return n
 }
 
@@ -370,8 +381,16 @@ func (ex *Exec) run() {
 	e.regHeap("alloc", "(Array Ref Bool)")
 	e.regHeap("allocA", "(Array ArrRef Bool)")
 	e.regHeap("jsfx", "Bool") // ghost: has unknown code (jsEffect) run on this path?
+	if len(ex.g.guarded) > 0 {
+		e.regHeap("lockheld", "(Array Ref Bool)")
+		ex.entry0lock = true
+	}
 	ex.entry = e.newState("0")
 	ex.entry.heap["jsfx"] = "false"
+	if ex.entry0lock {
+		// on entry this activation holds no mutex
+		ex.entry.heap["lockheld"] = "((as const (Array Ref Bool)) false)"
+	}
 	ex.st = ex.entry.clone()
 	e.assume(fmt.Sprintf("(not (select %s nil))", ex.entry.get("alloc")))
 	ex.params = map[string]Val{}
@@ -539,6 +558,13 @@ func (ex *Exec) clauseTerm(cl *Clause, args map[string]Val, cur, old *State, asG
 		body := r.T
 		if len(ranges) > 0 {
 			body = fmt.Sprintf("(=> (and %s) %s)", strings.Join(ranges, " "), body)
+		}
+		var bnames []string
+		for _, b := range binders {
+			bnames = append(bnames, strings.Fields(strings.Trim(b, "()"))[0])
+		}
+		if pats := autoPatterns(body, bnames); pats != "" {
+			return fmt.Sprintf("(forall (%s) (! %s %s))", strings.Join(binders, " "), body, pats)
 		}
 		return fmt.Sprintf("(forall (%s) %s)", strings.Join(binders, " "), body)
 	}
@@ -949,6 +975,7 @@ func (ex *Exec) execInstr(in ssa.Instruction) {
 		ex.st.set(name, e.zeroValue(t))
 		ex.vals[in] = Val{Loc: &Loc{Kind: LLocal, Heap: name, Typ: t}, S: "Ref"}
 	case *ssa.Store:
+		ex.guardCheck(in.Addr, "write", in.Pos())
 		addr := ex.get(in.Addr)
 		v := ex.get(in.Val)
 		t := in.Val.Type()
@@ -967,9 +994,11 @@ func (ex *Exec) execInstr(in ssa.Instruction) {
 			e.storeStruct(ex.st, t, addr.T, v.T)
 			return
 		}
-		// a store through an opaque pointer may alias any location of that type
-		e.note("store through an opaque pointer: all heap locations havocked")
-		ex.st = ex.jsEffect(ex.st)
+		// a store through an opaque pointer may alias any location of that Go type (and, by type
+		// safety, no other): every field and element heap of that type is havocked
+		for _, hv := range ex.heapsOfType(t) {
+			ex.st.havoc(hv)
+		}
 		h := e.cellHeap(t)
 		ex.st.set(h, fmt.Sprintf("(store %s %s %s)", ex.st.get(h), addr.T, v.T))
 	case *ssa.MapUpdate:
@@ -1134,7 +1163,39 @@ func (ex *Exec) zeroStructElems(et types.Type, a string) {
 }
 
 // preChecks: runtime checks that precede the evaluation of an instruction.
+// guardCheck: an access to a field declared `guarded` needs its mutex held.
+func (ex *Exec) guardCheck(addr ssa.Value, what string, p token.Pos) {
+	fa, ok := addr.(*ssa.FieldAddr)
+	if !ok || len(ex.g.guarded) == 0 {
+		return
+	}
+	st := deref(fa.X.Type())
+	s, isS := isStruct(st)
+	if !isS {
+		return
+	}
+	h, _ := ex.e.fieldHeap(st, fa.Field)
+	gd, ok := ex.g.guarded[h]
+	if !ok {
+		return
+	}
+	base := ex.get(fa.X)
+	if base.Loc != nil {
+		base = ex.env.materialize(base)
+	}
+	for i := 0; i < s.NumFields(); i++ {
+		if s.Field(i).Name() == gd[1] {
+			ex.e.regHeap("lockheld", "(Array Ref Bool)")
+			lock := ex.e.subRef(st, i, base.T)
+			ex.oblige("guard", what+":"+s.Field(fa.Field).Name()+"-needs-"+gd[1], fmt.Sprintf("(select %s %s)", ex.st.get("lockheld"), lock), p)
+		}
+	}
+}
+
 func (ex *Exec) preChecks(in ssa.Instruction) {
+	if u, ok := in.(*ssa.UnOp); ok && u.Op == token.MUL {
+		ex.guardCheck(u.X, "read", in.Pos())
+	}
 	switch in := in.(type) {
 	case *ssa.FieldAddr:
 		x := ex.get(in.X)
@@ -1346,7 +1407,21 @@ func (ex *Exec) doReturn(in *ssa.Return) {
 			if v := ex.reachingDef(p.Name, b, pos); v != nil {
 				m[p.Name] = ex.get(v)
 			} else {
-				ex.unsup("exitvars: cannot resolve variable %s at the return", p.Name)
+				// not defined on the way to this return: unconstrained
+				for _, cl := range ex.con.Ensures {
+					if cl.Fn == nil {
+						continue
+					}
+					for i, nm := range cl.Names {
+						if nm == p.Name {
+							m[p.Name] = ex.env.freshVal("exitvar_"+p.Name, cl.Fn.Params[i].Type())
+						}
+					}
+					if _, ok := m[p.Name]; ok {
+						break
+					}
+				}
+				ex.flushFacts()
 			}
 		}
 	}
@@ -1380,4 +1455,44 @@ func (ex *Exec) doPanic(in *ssa.Panic) {
 		ex.oblige("ensures_panic", lbl, t, in.Pos())
 		ex.obligs[len(ex.obligs)-1].Clause = cl
 	}
+}
+
+// heapsOfType: every heap variable (struct field or slice element) whose content has Go type t.
+func (ex *Exec) heapsOfType(t types.Type) []string {
+	e := ex.e
+	seen := map[string]bool{}
+	var out []string
+	add := func(h string) {
+		if !seen[h] {
+			seen[h] = true
+			out = append(out, h)
+		}
+	}
+	var visit func(st types.Type, depth int)
+	visit = func(st types.Type, depth int) {
+		s, ok := isStruct(st)
+		if !ok || depth > 3 {
+			return
+		}
+		for i := 0; i < s.NumFields(); i++ {
+			ft := s.Field(i).Type()
+			if _, nested := isStruct(ft); nested {
+				visit(ft, depth+1)
+				continue
+			}
+			if types.Identical(ft, t) {
+				h, _ := e.fieldHeap(st, i)
+				add(h)
+			}
+		}
+	}
+	for _, c := range ex.g.concreteTypes {
+		if _, isPtr := c.(*types.Pointer); isPtr {
+			continue
+		}
+		visit(c, 0)
+	}
+	add(e.elemHeap(t))
+	sort.Strings(out)
+	return out
 }
